@@ -171,7 +171,7 @@ def rule_p2(ctx, F):
         src, dst = trace_root(fn, c["a"][0]), trace_root(fn, c["a"][1])
         tvar = trace_root(fn, tp[0][2]) if tp[0][2] is not None else None
         targ = trace_root(fn, tp[0][1]["a"][0])
-        if src == "temp_output" and tvar == "temp_output" and dst == targ and dst is not None:
+        if src is not None and src == tvar and dst == targ and dst is not None:
             ctx.ok("P2", "%s:rename-temp-into-place" % name, "fs::rename(temp_path(%s) → %s)" % (targ, dst), sample={"function": name, "site": fn.loc(pt), "from": src, "to": dst})
         else:
             ctx.bad("P2", "%s:rename-temp-into-place" % name, "%s: the rename is not `temp_path(output) → output` (from %s, to %s, temp_path(%s) bound to %s)" % (name, src, dst, targ, tvar))
@@ -193,7 +193,7 @@ def rule_p2(ctx, F):
             ctx.ok("P2", "%s:no-direct-write" % name, "no File::create / fs::write / fs::copy in the compile function")
         # the compiler is told to write the temp path: some Command::arg/args argument is data-dependent on temp_output
         from taint import Taint
-        tids = set(fn.ids_named("temp_output"))
+        tids = set(fn.ids_named(tvar or "temp_output"))
         T = Taint(F, [fn], lambda n, f: n.get("k") == "ref" and n.get("id") in tids).run()
         uses = 0
         for pt2, e in fn.points():
@@ -206,16 +206,13 @@ def rule_p2(ctx, F):
         else:
             ctx.bad("P2", "%s:compiler-writes-temp" % name, "%s: no Command argument derives from temp_path(output): the compiler may write the final path directly" % name)
         # …and none is given the final path
-        oids = set(fn.ids_named("output_path"))
-        T2 = Taint(F, [fn], lambda n, f: n.get("k") == "ref" and n.get("id") in oids, carrier=lambda t: "temp" not in t).run()
-        T2.vars[fn.name] -= tids | set(fn.ids_named("temp_output_str")) | set(fn.ids_named("out"))
         direct_args = 0
         for pt2, e in fn.points():
             for n in own_walk(e):
                 if n.get("k") == "call" and "Command" in (n.get("fn") or "") and "::arg" in n["fn"]:
                     for a in n.get("a", [])[1:]:
                         r = trace_root(fn, a)
-                        if r == "output_path":
+                        if r is not None and r == dst:
                             direct_args += 1
         if direct_args:
             ctx.bad("P2", "%s:compiler-not-given-final-path" % name, "%s passes the final output path itself to the compiler (%d argument(s)): readers could observe a partially written library" % (name, direct_args))
